@@ -228,31 +228,34 @@ def breakString (maxWidth : Nat) (trimEnd : Bool) (lineEnd : List Char) (input :
     | some urlEnd => breakAt trimEnd input urlEnd
     | none => searchBreak trimEnd input mwi
 
-/-! ## the line-continuation regex `([^\\](\\\\)*)\\[\n\r][ \t\n\r]*` replaced by `$1` -/
+/-! ## the line-continuation regex `([^\\](\\\\)*)(\\[\n\r][ \t\n\r]*)+` replaced by `$1` -/
 
 /-- The literal the matcher below implements; `translate/strfmt_regex.py` reads the one in string.rs
 into `RF/Gen/StringFmtRegex.lean` and `RF/Props/StringFmt.lean` compares the two. -/
-def modelledRegex : String := "([^\\\\](\\\\\\\\)*)\\\\[\\n\\r][ \\t\\n\\r]*"
+def modelledRegex : String := "([^\\\\](\\\\\\\\)*)(\\\\[\\n\\r][ \\t\\n\\r]*)+"
 
 /-- The white space a string continuation skips (`rustc_lexer::unescape::skip_ascii_whitespace`), which
-is also the class `[ \t\n\r]` at the end of the regex. -/
+is also the class `[ \t\n\r]` of the regex. -/
 def isContWs (c : Char) : Bool := c == ' ' || c == '\t' || c == '\n' || c == '\r'
 
 /-- State of the matcher between two characters.
 `start`: no anchor (`[^\\]`) directly before the pending backslashes;
 `even`: an anchor and an even number of backslashes behind it have been copied;
 `odd`: as `even`, plus one backslash that is held back (it starts `\\[\n\r]` if a line break follows);
-`space`: inside `[ \t\n\r]*` of a match. -/
+`space`: inside `[ \t\n\r]*` of a match;
+`spaceBs`: as `space`, plus one backslash that is held back (it starts another round of the repetition if a
+line break follows, otherwise the match ended before it). -/
 inductive ReState where
-  | start | even | odd | space
+  | start | even | odd | space | spaceBs
   deriving Repr, DecidableEq
 
 /-- `Regex::replace_all(orig, "$1")`, leftmost-first, non-overlapping: a match starts at a
-non-backslash character followed by an odd number of backslashes and `\n` or `\r`; it ends after the
-longest run of `[ \t\n\r]`; the next search starts there (so the character after a match is not
-preceded by an anchor). -/
+non-backslash character followed by an odd number of backslashes and `\n` or `\r`; it goes on over the
+longest run of `[ \t\n\r]`, and over every further backslash–line-break–run directly behind it; the next
+search starts there (so the character after a match is not preceded by an anchor). -/
 def stripGo : ReState → List Char → List Char
   | .odd, [] => ['\\']
+  | .spaceBs, [] => ['\\']
   | _, [] => []
   | .start, c :: r => if c == '\\' then c :: stripGo .start r else c :: stripGo .even r
   | .even, c :: r => if c == '\\' then stripGo .odd r else c :: stripGo .even r
@@ -262,7 +265,11 @@ def stripGo : ReState → List Char → List Char
     else '\\' :: c :: stripGo .even r
   | .space, c :: r =>
     if isContWs c then stripGo .space r
-    else if c == '\\' then c :: stripGo .start r else c :: stripGo .even r
+    else if c == '\\' then stripGo .spaceBs r else c :: stripGo .even r
+  | .spaceBs, c :: r =>
+    if c == '\n' || c == '\r' then stripGo .space r
+    else if c == '\\' then '\\' :: '\\' :: stripGo .start r
+    else '\\' :: c :: stripGo .even r
 
 /-- `strip_line_breaks_re.replace_all(orig, "$1")` (string.rs:76-77). -/
 def stripLineBreaks (orig : List Char) : List Char := stripGo .start orig
